@@ -7,6 +7,8 @@ CONSTANTS
   NHosts = 2
   MaxOps = 4
   StoreUnderReadLock = FALSE
+  ReopenForgetsKs = FALSE
+  FailKeepsLock = FALSE
   SelectIgnoresFailure = FALSE
 PROPERTIES UseAnswered
 CHECK_DEADLOCK FALSE
